@@ -277,6 +277,22 @@ pub fn e1_spec(id: &str, tier: &str) -> Option<Spec> {
                 a
             },
         }),
+        #[cfg(feature = "persist")]
+        "C26" => Some(Spec {
+            id: "C26",
+            programs: progs::persist_set(),
+            depth: if quick { 4 } else { 5 },
+            alphabet: Box::new(progs::persist_alphabet),
+            flags: Flags { values: true, persist: true, justify: true, fresh_end: true, ..Flags::default() },
+            rule: RULE_E1,
+            cap_s: cap,
+            config: "persist",
+            assumptions: {
+                let mut a = base_assumptions();
+                a.push("RoundTrip = serde_json serialization of the whole database followed by deserialization into a fresh database on which the history continues".into());
+                a
+            },
+        }),
         "C12" | "C13" => {
             use ql::ex::Kind;
             let c13 = id == "C13";
